@@ -463,6 +463,43 @@ func run(c *fw.Ctx) {
 			report(f, witness{Nested: m})
 		}
 	})
+	// A2: deep maps - a spine of depth 1..12 with 1-3 sibling leaves at the bottom, with and without a
+	// side leaf at every level (depth-dependent behaviour: slice growth, recursion, key joining)
+	maxSpine := 12
+	if c.Thorough() {
+		maxSpine = 20
+	}
+	c.R.Info["deep_map_max_depth"] = maxSpine
+	for d := 1; d <= maxSpine; d++ {
+		for sibs := 1; sibs <= 3; sibs++ {
+			for _, comb := range []bool{false, true} {
+				for _, spineKey := range []string{"a", "é"} {
+					item++
+					if !c.Mine(item) {
+						continue
+					}
+					m := map[string]interface{}{}
+					cur := m
+					for lvl := 1; lvl < d; lvl++ {
+						if comb {
+							cur["b"] = lvl
+						}
+						nx := map[string]interface{}{}
+						cur[spineKey] = nx
+						cur = nx
+					}
+					for i, k := range keyPool[:sibs] {
+						cur[k] = 100 + i
+					}
+					c.R.Evaluations++
+					c.Count("deep_nested_maps", 1)
+					if f := checkNested(m); f != nil {
+						report(f, witness{Nested: m})
+					}
+				}
+			}
+		}
+	}
 	// B
 	nsym := 2
 	if c.Thorough() {
@@ -645,7 +682,7 @@ var _ = bytes.Contains
 
 func init() {
 	fw.Register(&fw.Check{ID: "C20", Level: "exploration",
-		Rule: "all nested maps over keys {a,b,é} with depth<=3 and <=3 (quick) / <=4 (thorough) leaves (flatten/rebuild both ways, string variant); all JSON documents of 4 nested-object shapes whose string leaf ranges over every string of <=2 (quick) / <=3 (thorough) symbols from {a, quote, backslash, slash, newline, tab, U+0001, é, U+1F600} in every JSON spelling (incl. surrogate pairs) (raw and escaped), plus number/true/null/array leaves, compared with encoding/json (UseNumber); all flat maps from 8 prefix-free key sets x every value string of <=2/3 symbols from {a, quote, backslash, slash, newline, tab, 0x01, é, '<', U+2028, U+1F600, U+10000, U+FFFF, 0x7f} written compact and formatted (valid for encoding/json, same map, round trip); plus EVERY prefix-free set of <=3/<=4 keys from all 30 paths of depth <=2 over the segments {s, s1, s10, s-, é} (names that are prefixes of one another or sort around the separator); translation loader on 10 directory layouts (1-4 files, 1-40 keys per file) under every schedule with <= bound preemptions. distinct = inputs/schedules",
+		Rule: "all nested maps over keys {a,b,é} with depth<=3 and <=3 (quick) / <=4 (thorough) leaves, plus deep maps (spine of depth 1..12 / 1..20 with 1-3 sibling leaves at the bottom, with and without a side leaf per level) (flatten/rebuild both ways, string variant); all JSON documents of 4 nested-object shapes whose string leaf ranges over every string of <=2 (quick) / <=3 (thorough) symbols from {a, quote, backslash, slash, newline, tab, U+0001, é, U+1F600} in every JSON spelling (incl. surrogate pairs) (raw and escaped), plus number/true/null/array leaves, compared with encoding/json (UseNumber); all flat maps from 8 prefix-free key sets x every value string of <=2/3 symbols from {a, quote, backslash, slash, newline, tab, 0x01, é, '<', U+2028, U+1F600, U+10000, U+FFFF, 0x7f} written compact and formatted (valid for encoding/json, same map, round trip); plus EVERY prefix-free set of <=3/<=4 keys from all 30 paths of depth <=2 over the segments {s, s1, s10, s-, é} (names that are prefixes of one another or sort around the separator); translation loader on 10 directory layouts (1-4 files, 1-40 keys per file) under every schedule with <= bound preemptions. distinct = inputs/schedules",
 		Run: run, Replay: replay,
 		Assumptions: []string{"encoding/json is the reference JSON decoder", "loader values are %-free (Translate is a format API)", "2-3 preemptions, MaxJob 1-2 for the loader"}})
 }
